@@ -362,6 +362,53 @@ func JSONFileExprs(b *ast.Body, ch Chooser, wild bool, plainObject ...string) (s
 	return s, j.Feat, ok
 }
 
+// ExprJSON writes an expression as a JSON value in full-expression mode, keeping tuple and
+// object constructors (at any depth) as JSON arrays and objects so that they remain
+// statically analysable; everything else becomes a "${...}" string. static reports whether
+// the top level is such an array / object.
+func ExprJSON(n ast.Node) (string, bool) {
+	j := &jb{Feat: JSONFeat{}, EscapeTemplates: true, ExprAsTemplate: true}
+	for {
+		if p, ok := n.(ast.Paren); ok {
+			n = p.X
+			continue
+		}
+		break
+	}
+	return j.structJSON(n)
+}
+
+func (j *jb) structJSON(n ast.Node) (string, bool) {
+	switch x := n.(type) {
+	case ast.Tuple:
+		parts := make([]string, len(x.Elems))
+		for i, e := range x.Elems {
+			parts[i], _ = j.structJSON(e)
+		}
+		return "[" + strings.Join(parts, ",") + "]", true
+	case ast.Object:
+		var parts []string
+		for _, it := range x.Items {
+			var key string
+			switch it.Kind {
+			case ast.KeyIdent:
+				key = jsonString(it.Name)
+			default:
+				if lit, ok := j.literal(it.Key); ok && strings.HasPrefix(lit, "\"") {
+					key = lit
+				} else {
+					canon, _ := Expression(it.Key, Fixed{}, Opts{})
+					key = jsonString("${" + canon + "}")
+				}
+			}
+			v, _ := j.structJSON(it.Val)
+			parts = append(parts, key+":"+v)
+		}
+		return "{" + strings.Join(parts, ",") + "}", true
+	}
+	return j.exprJSON(n), false
+}
+
 // LiteralJSON exposes the literal renderer.
 func LiteralJSON(n ast.Node, escapeTemplates bool) (string, bool) {
 	j := &jb{EscapeTemplates: escapeTemplates, Feat: JSONFeat{}}
